@@ -30,6 +30,7 @@ SPIN_KINDS = ['spin_period', 'spin_frequency']
 
 
 _WIDE = [False]     # per-plan swarm knob (C17): separations over thirty orders of magnitude
+_INTS = [False]     # per-plan swarm knob (C17): some separations are integers
 
 
 def gen_value(d: Draw, kind, n, mixed=None):
@@ -44,6 +45,11 @@ def gen_value(d: Draw, kind, n, mixed=None):
         # "all positive finite inputs over 30 orders of magnitude": a period of microseconds, a separation far inside the
         # host or of light-years - Kepler's law is a pure identity between the three stored numbers and must survive them
         v['v'] = v['v'] * 10.0 ** d.pick([-15, -12, -9, -6, -4, -3, -2, -1, 1, 2, 3, 4, 6, 9, 12, 15])
+    if _INTS[0] and kind in ('semi_major_axis', 'orbital_period') and 'nudge' not in v and d.chance(1, 4):
+        # a whole number handed in as a Python int / an int64 array (421700000 m, 3 days): a positive finite input like any other
+        v['v'] = int(round(v['v'])) if v['v'] >= 1 else 1
+        v['int'] = True
+        return v
     if d.chance(1, 6):
         # a value a hair away from a palette value: successive updates that differ by far less than any "looks unchanged"
         # tolerance, as a time-stepping caller produces them
@@ -487,6 +493,7 @@ class OopStateEngine(EngineBase):
         cfg = gen_config(d, self.prop)
         n_ops = d.between(3, 10) if tier == 'quick' else d.between(3, 14)
         _WIDE[0] = self.prop == 'C17' and d.chance(1, 3)
+        _INTS[0] = self.prop == 'C17' and d.chance(1, 4)
         ops = []
         if d.chance(3, 4):
             # most histories start by placing the system in a complete state, so that tides are actually computed
